@@ -12,8 +12,9 @@ from .vector_algebra import _XYZ
 _BoundXYZ_1 = TypeVar("_BoundXYZ_1", bound=_XYZ)
 _BoundXYZ_2 = TypeVar("_BoundXYZ_2", bound=_XYZ)
 
-#: Maximum distance used to bound calculations of smallest distance
-MAX_DISTANCE = 1e6
+#: Initial value when searching for the smallest (squared) distance; every
+#: finite squared distance must compare below it
+MAX_DISTANCE = float('inf')
 
 
 def squared_distance(atom1: _XYZ, atom2: _XYZ) -> float:
